@@ -21,6 +21,10 @@ template <class In, class Out> Out copy(In first, In last, Out out) {
 template <class T, class U> void fill(T* first, T* last, U v) {
   while (first != last) { *first = (T)v; ++first; }
 }
+template <class T, class U> T* find(T* first, T* last, const U& v) {
+  while (first != last) { if (*first == v) return first; ++first; }
+  return last;
+}
 template <class T> T min(T a, T b) { return b < a ? b : a; }
 template <class T> T max(T a, T b) { return a < b ? b : a; }
 template <class T> void swap(T& a, T& b) { T t = a; a = b; b = t; }
